@@ -428,7 +428,7 @@ class InputStream(BodyStream):
             out.violate(f"{self.pid}/{self.name}/{kind}", msg)
 
         try:
-            stream = get_input_stream(environ, safe_fallback=safe, max_content_length=mcl)
+            stream = self.open_stream(environ, safe, mcl)
         except RequestEntityTooLarge:
             if expect[0] != "413":
                 vio("spurious-413-at-open", f"declared length {ref} is within max_content_length {mcl}")
@@ -468,5 +468,39 @@ class InputStream(BodyStream):
     def _done(self, out, tr, sim):
         return self.finish(out, tr, {}, sim)
 
+    def open_stream(self, environ, safe, mcl):
+        from werkzeug.wsgi import get_input_stream
 
-SCENARIOS = [BodyStream(), InputStream()]
+        return get_input_stream(environ, safe_fallback=safe, max_content_length=mcl)
+
+
+class RequestStream(InputStream):
+    """The same decision table and read histories one level up: ``Request.stream`` (and
+    ``get_data``) on a Request whose class sets ``max_content_length``."""
+
+    name = "c09_request_stream"
+    cases = {"quick": 40000, "thorough": 600000}
+    real = "werkzeug.wrappers.Request.stream / get_data -> get_input_stream -> LimitedStream"
+    stubs = "the WSGI environ, wsgi.input (SimStream), the application's read pattern"
+
+    def generate(self, rng: random.Random, tier: str) -> dict:
+        case = super().generate(rng, tier)
+        case["safe_fallback"] = True  # Request always uses the safe fallback
+        return case
+
+    def build(self, case: dict, sim):
+        return super().build(dict(case, safe_fallback=True), sim)
+
+    def open_stream(self, environ, safe, mcl):
+        from werkzeug.wrappers import Request
+
+        class Req(Request):
+            max_content_length = mcl
+
+        environ.setdefault("SERVER_NAME", "localhost")
+        environ.setdefault("SERVER_PORT", "80")
+        environ.setdefault("wsgi.url_scheme", "http")
+        return Req(environ).stream
+
+
+SCENARIOS = [BodyStream(), InputStream(), RequestStream()]
